@@ -220,6 +220,10 @@ func init() {
 			m.sch().fairLimit = int(a[1].(int64))
 			return nil
 		},
+		verifrtPath + ".SchedPreemptAtLoads": func(m *Machine, fr *frame, a []value) value {
+			m.sch().preemptAtLoads = a[0].(bool)
+			return nil
+		},
 		verifrtPath + ".Yields": func(m *Machine, fr *frame, a []value) value { return int64(m.sch().yields) },
 		verifrtPath + ".MustTerminate": func(m *Machine, fr *frame, a []value) value {
 			m.path.mustTerminate = concStr(a[0])
